@@ -6,24 +6,24 @@ func init() {
 	vHarnesses["VerifC01Flat"] = VerifC01Flat
 }
 
-var vC01N = 3
+
 
 // VerifC01Flat: diff-then-patch on two arrays of numbers, every option set.
 func VerifC01Flat() {
 	k := vChoice(optCount)
 	vAssume(k != optSetKeys) // keyed sets need object members: separate family
 	opts := vOptions(k)
-	a := vNumArray(vC01N)
-	b := vNumArray(vC01N)
+	a := vNumArray(vParam("N", 3))
+	b := vNumArray(vParam("N", 3))
 	d := a.Diff(b, opts...)
 	var x JsonNode = a
 	if vChoice(2) == 1 {
 		x = vClone(a)
 	}
-	//vObserve("diff", d.Render())
+	vObserve("diff", d.Render())
 	p, err := x.Patch(d)
 	vAssert(err == nil, "patch of own diff failed")
-	//vObserve("patched", p.Json())
+	vObserve("patched", p.Json())
 	vAssert(p.Equals(b, opts...), "patched document differs from target")
 	vCover("c01.flat." + optName(k))
 }
